@@ -1279,9 +1279,12 @@ Section XSort.
       assert (Hco : crowd_of log (sid (a_sol a)) = Some v).
       { apply (crowd_of_at log k r f cs _ v Ek Hv). intros j e Hj He.
         pose proof (LC _ (nth_error_In _ _ He)) as Hce.
-        apply (crowding_unbound _ _ _ _ ltac:(apply (sid_inj_incl l); [intros x Hx; apply (Hsub j); now rewrite (Hnth _ _ He)|assumption]) Hce).
+        assert (Hje : sid_inj (snd (fst e))).
+        { apply (sid_inj_incl l); [|assumption]. intros x Hx. apply (Hsub j). now rewrite (Hnth _ _ He). }
+        apply (crowding_unbound _ _ _ _ Hje Hce).
         destruct (has_sid (sid (a_sol a)) (snd (fst e))) eqn:Hs; [|reflexivity]. exfalso.
-        apply has_sid_In in Hs. destruct Hs as [y [Hy Ey]]. rewrite <- (Hnth _ _ He) in Hy.
+        apply has_sid_In in Hs. destruct Hs as [y [Hy0 Ey]].
+        assert (Hy : In y (nth j (fronts_of xq cstore log) [])) by (rewrite (Hnth _ _ He); exact Hy0).
         assert (y = a_sol a) by (apply Hinj; [eapply Hsub; eauto|now apply ann_In|assumption]). subst y.
         assert (j = k) by (eapply LDis; eauto). lia. }
       rewrite Hc in Hco. now injection Hco as ->.
